@@ -81,7 +81,7 @@ def generate(ctx):
             if r < 0.55:
                 ops.append({"op": "contribute", "param": rng.choice(["weight", "weight", "bias", "delay"]),
                             "form": rng.choice(["pair", "pair", "pos_only", "neg_only", "tensor"]),
-                            "trainer": rng.randrange(3)})
+                            "trainer": rng.randrange(3), "zero": rng.choice([None, None, None, "pos", "neg", "both"])})
             elif r < 0.75:
                 ops.append({"op": "update", "clear": rng.random() < 0.8})
             elif r < 0.85:
@@ -260,6 +260,12 @@ def _algebra(ctx, desc):
             if k == "contribute":
                 nm, form = op["param"], op["form"]
                 p, n = rnd(pshape[nm]), rnd(pshape[nm])
+                if op.get("zero") in ("pos", "both"):
+                    p = torch.zeros_like(p)      # a trainer step without pairs contributes an all-zero part: still a part
+                if op.get("zero") in ("neg", "both"):
+                    n = torch.zeros_like(n)
+                if op.get("zero"):
+                    ctx.count("all_zero_parts_contributed")
                 if form == "pair":
                     setattr(upd, nm, (p, n))
                     model[nm]["pos"].append(_np(p)); model[nm]["neg"].append(_np(n))
